@@ -41,6 +41,14 @@ func (g *gen) pick(q, t int) int {
 	if g.thorough() {
 		return t
 	}
+	if g.tier == "escalated" {
+		// the anchored source files differ from the ones the models were written against:
+		// look harder (6x the quick budget, never more than the thorough one)
+		if q*6 < t {
+			return q * 6
+		}
+		return t
+	}
 	return q
 }
 func (g *gen) bytes(n int) []byte {
